@@ -238,6 +238,57 @@ def o_union(src, members, parsefrom, data, start):
     exp_end = start if parsefrom is None else ends[parsefrom]
     if r[2] != exp_end:
         return 'Union ended at %d, contract says %d' % (r[2], exp_end)
+    # the compiled parser honours the same contract
+    try:
+        cc = C.get(src).compile()
+    except Exception:
+        cc = None
+    if cc is not None:
+        st = io.BytesIO(data)
+        st.seek(start)
+        try:
+            cv = cc.parse_stream(st)
+        except Exception as e:
+            return 'the compiled Union raised %s where the Union returns a value' % type(e).__name__
+        if st.tell() != exp_end:
+            return 'the compiled Union ended at %d, contract says %d' % (st.tell(), exp_end)
+        for nm, v in vals.items():
+            if not C.peq(cv[nm], v):
+                return 'compiled Union member %s is %r, alone from the start it is %r' % (nm, cv[nm], v)
+    return None
+
+
+def build_alone(src, obj, prefix):
+    st = io.BytesIO()
+    st.write(prefix)
+    try:
+        C.get(src).build_stream(obj, st)
+        return ('ok', st.getvalue(), st.tell())
+    except core.ExplicitError:
+        return ('explicit',)
+    except core.ConstructError as e:
+        return ('err', type(e).__name__)
+    except Exception as e:
+        return ('foreign', type(e).__name__)
+
+
+@C.oracle('select_build')
+def o_select_build(src, alts, obj, prefix):
+    """building through Select / Optional: the output is what the first alternative that can build the value produces alone -
+    nothing an alternative wrote before it failed stays in the stream"""
+    r = build_alone(src, obj, prefix)
+    for a in alts:
+        i = build_alone(a, obj, prefix)
+        if i[0] == 'explicit':
+            return None if r[0] == 'explicit' else 'ExplicitError of an alternative was swallowed on build'
+        if i[0] == 'ok':
+            if r[0] != 'ok':
+                return 'alternative %s builds %r but Select raised %s' % (a, obj, r[1:])
+            if r[1] != i[1] or r[2] != i[2]:
+                return 'Select wrote %r and stands at %d; the first alternative that builds the value, %s, alone writes %r and stands at %d' % (r[1], r[2], a, i[1], i[2])
+            return None
+    if r[0] == 'ok':
+        return 'no alternative builds %r but Select wrote %r' % (obj, r[1])
     return None
 
 
@@ -331,6 +382,22 @@ def run(tier, seed):
         for st in (0, 1):
             cases.append(dict(src='Sequence(%s, Tell)' % src, op='parse', data=b'\xee' * st + d, start=st))
         checks.append(('pointer_root', src, dict(data=d)))
+    # building through alternatives, some of which write a few bytes before they fail
+    BALTS = ['Sequence(Int32ub, Int8ub)', 'Sequence(Int8ub, Int16ub)', 'Sequence(Int16ub, Int16ub, Const(b"\\x01"), OneOf(Byte, [0]))', 'Int8ub', 'Int32ub',
+             'Struct("a"/Int16ub, "b"/Byte)', 'Struct("a"/Int32ub, "b"/Int32ub, "c"/Byte)', 'Struct("a"/Byte)', 'Bytes(3)', 'Array(3, Byte)', 'Array(2, Int16ub)',
+             'Prefixed(Byte, Array(2, Byte))', 'PascalString(Byte, "ascii")', 'Sequence(Bytes(2), Byte)', 'Struct("a"/Int16ub, "b"/Check(this.a > 9))', 'Pass']
+    BOBJS = [[1, 300], [1, 2], [300, 7], [70000, 1], [1, 2, 3], [1, 2, None, 0], [1, 2, None, 5], 7, 300, 70000, dict(a=1, b=300), dict(a=1, b=2), dict(a=300, b=1, c=2),
+             dict(a=300, b=1, c=300), dict(a=1), b'abc', [b'ab', 300], [b'ab', 1], 'hi', None, [1, 300, 2], [300, 300]]
+    brng = C.rng_for(seed, 'C09', 'select_build')
+    for _ in range(150 if tier == 'quick' else 1500):
+        alts = [brng.choice(BALTS) for _ in range(brng.randint(2, 4))]
+        opt = brng.random() < 0.25
+        bsrc = 'Optional(%s)' % alts[0] if opt else 'Select(%s)' % ', '.join(alts)
+        if opt:
+            alts = [alts[0], 'Pass']
+        for obj in brng.sample(BOBJS, 6):
+            checks.append(('select_build', bsrc, dict(alts=alts, obj=obj, prefix=brng.choice([b'', b'\xee\xee']))))
+            cases.append(dict(src='Struct("h"/Const(b"\\xee"), "s"/%s, "t"/Tell)' % bsrc, op='build', obj=dict(s=obj)))
     # a range stopped by a signal raised inside an element that has already consumed bytes
     # (FocusedSeq lets the signal through; Struct and Sequence elements would stop themselves and the range would go on)
     for tmpl, width in [('GreedyRange(FocusedSeq("x", "x"/Byte, StopIf(this.x == 0)))', 1), ('GreedyRange(FocusedSeq("x", "x"/Int16ub, StopIf(this.x == 0)))', 2),
